@@ -127,6 +127,13 @@ ErrorIsACause == LET p == Parse(B) IN
   p.ok \/ <<p.err, IF "type" \in DOMAIN p THEN p.type ELSE -1>> \in Causes(B)
 RejectedHasCause == Parse(B).ok <=> Causes(B) = {}
 CausesAgree == Causes(B) = CausesDecl(B)          \* the linear formulation is the declarative one
+\* C02 "truncated with the byte counts": whichever truncation is reported, its sizes describe the buffer - what is
+\* available is the buffer's length and more than that is needed (how much more is fixed only for cuts at the header
+\* level, `exact`).  The one exception is documented as-is: a FINGERPRINT value of a wrong length may be reported as
+\* a truncated VALUE with the value's own sizes (App. B of DESIGN.md).
+TruncationDescribes == LET p == Parse(B) IN
+  (~p.ok /\ p.err = "Truncated" /\ ~ \E c \in Causes(B) : c[1] = "InvalidAttributeData")
+    => (p.actual = Len(B) /\ p.expected > p.actual)
 
 \* C10 on accepted messages
 ExposureInv ==
